@@ -22,7 +22,7 @@ ASSUMPTIONS = ["nvmon.ref exact reference model", "explored domain of DESIGN.md 
 FLOORS = {'quick': {'insert-accepted': 400, 'probe-lib': 4000, 'probe-defn': 4000, 'structure': 400, 'reject-intact': 100,
                     'hook:knot_insertion': 300},
           'thorough': {'insert-accepted': 5000, 'probe-lib': 50000}}
-MANDATORY_TAGS = ['large', 'pdim1', 'pdim2', 'pdim3', 'twins', 'rational', 'on-knot', 'in-span', 'multi-dir', 'via:method', 'via:operations',
+MANDATORY_TAGS = ['helper-default:ulp-below', 'helper-default:exact', 'large', 'pdim1', 'pdim2', 'pdim3', 'twins', 'rational', 'on-knot', 'in-span', 'multi-dir', 'via:method', 'via:operations',
                   'r>=2', 'unnormalized', 'dir:u', 'dir:v', 'dir:w', 'same-value-again', 'unclamped', 'on-domain-end', 'short-knot-range']
 TECHNIQUE = ("runtime monitoring: shadow-model oracle (exact reference of the original definition) evaluated after every step of "
              "a seeded insertion history, plus an all-call post-condition hook on helpers.knot_insertion/_kv")
@@ -131,6 +131,8 @@ def gen(rng, tier, shard, nshards):
             # an un-normalised knot vector on a very short (or long) range: tolerances of the library must be relative to that range
             a_ = rng.choice([0.0, 5.0, -2.0 ** -21])
             kw.update(normalize=False, lohi=(a_, a_ + rng.choice([2.0 ** -20, 2.0 ** -17, 2.0 ** 12])))
+        if i % 4 == 0:
+            yield {'kind': 'helper-default', 'seed': rng.randrange(1 << 30)}
         if 'lohi' not in kw and 'kvcls' not in kw and not (shard == 0 and i < len(forced)) and rng.random() < 0.06:
             kw['large'] = True         # degree up to 10 / 40 control points; one long, high-degree direction for surfaces and volumes
         unclamped = 'kvcls' not in kw and rng.random() < 0.25
@@ -210,9 +212,60 @@ def check_twins(case, ctx):
                              'twin shapes, order %s: definition of shape %s after insertion differs' % (order, name), 'probe-defn')
 
 
+def check_helper_default(case, ctx):
+    """helpers.knot_insertion called as documented, without the optional s / span: it works them out itself - consistently, also for a
+    parameter that is an existing knot up to rounding (0.3 * 3 for the knot 0.9)"""
+    import math
+    from geomdl import helpers
+    rng = random.Random(case['seed'])
+    p = rng.randint(1, 5)
+    n = p + 2 + rng.randint(0, 6)
+    U = G.knot_vector(rng, p, n, rng.choice(['uniform', 'random', 'random']), rng.choice([(0.0, 1.0), (0.0, 1.0), (2.0, 5.0)]))
+    inner = sorted(set(U[p + 1:n]))
+    cnt = Counter(U)
+    inner = [k for k in inner if cnt[k] < p]
+    if not inner:
+        raise Reject()
+    k = rng.choice(inner)
+    how = rng.choice(['exact', 'ulp-below', 'ulp-above', 'mid'])
+    if how == 'mid':
+        d = sorted(set(U))
+        i_ = rng.randrange(len(d) - 1)
+        u = 0.5 * (d[i_] + d[i_ + 1])
+        k = None
+    else:
+        u = k if how == 'exact' else math.nextafter(k, -math.inf if how == 'ulp-below' else math.inf)
+    dim = rng.choice([2, 3])
+    P = [[rng.uniform(-10, 10) for _ in range(dim)] for _ in range(n)]
+    ctx.tag('helper-default', 'helper-default:' + how)
+    ctx.nontriv(True)
+    with hooks.suspended():
+        Q = helpers.knot_insertion(p, list(U), [list(q) for q in P], u)
+    if not ctx.check(len(Q) == n + 1, 'helper-default/size', 'helpers.knot_insertion(p=%d, u=%r) without s / span returned %d control points '
+                     'for %d + 1' % (p, u, len(Q), n), what='helper-default'):
+        return
+    S0 = ref.Shape((p,), (U,), (n,), {(i,): P[i] for i in range(n)}, False)
+    sc = max(1.0, max(abs(x) for q in P for x in q))
+    ks = sorted(set(U[p:n + 1]))
+    qs = [ks[0], ks[-1]] + [0.5 * (x + y) for x, y in zip(ks, ks[1:])]
+    best = None
+    # the caller inserts the same value into the knot vector; a helper that takes the value for the existing knot describes the curve on
+    # the vector with that knot repeated - either reading is the same curve
+    for cand in ([u] if k is None else [u, k]):
+        U1 = sorted(list(U) + [cand])
+        S1 = ref.Shape((p,), (U1,), (n + 1,), {(i,): list(Q[i]) for i in range(n + 1)}, False)
+        err = max(abs(float(a - b)) for q in qs for a, b in zip(S0.point((q,)), S1.point((q,))))
+        best = err if best is None else min(best, err)
+    ctx.check(best <= 1e-9 * sc, 'helper-default/shape-changed', 'helpers.knot_insertion(p=%d, kv, P, u=%r) with its own multiplicity / span '
+              '(u is %s): the returned polygon defines a different curve (deviation %.3g)'
+              % (p, u, {'exact': 'an existing knot', 'mid': 'inside a span'}.get(how, 'one ulp beside the knot %r' % k), best), what='helper-default', kv=U)
+
+
 def check(case, ctx):
     if case.get('kind') == 'twins':
         return check_twins(case, ctx)
+    if case.get('kind') == 'helper-default':
+        return check_helper_default(case, ctx)
     if case.get('kind') == 'ambient-suite':
         from .. import ambient
         ctx.nontriv(True)
